@@ -9,9 +9,12 @@ def c17_part(chk, tier, rng):
     n, nops = (8, 40) if tier == 'quick' else (200, 100)
     chk.rules.append('whole-database histories with the I/O journal on: every MANIFEST record is decoded by the Lean decoders, each applied edit is replayed on the model and the layout '
                      'compared with the implementation after every edit and every reopen; crash images at every journal prefix of reopen-heavy histories must open (CURRENT atomic)')
-    wl_run.run_histories(chk, n, nops, {'conforms', 'layout', 'recover', 'step'}, 'manifest-replay', journal=True)
+    # the Disk monitor decodes every MANIFEST byte written with the model's log reader and edit decoder (the independent
+    # decoder of the statement) and checks that CURRENT only ever names a complete, synced MANIFEST: its verdict is the property
+    wl_run.run_histories(chk, n, nops, {'conforms', 'layout', 'recover', 'step'}, 'manifest-replay', journal=True, oracle_tags=('conforms',))
     fam = lambda r, db, img, nops_: crash_gen.history(r, db, img, nops_, '014', False, 30 if tier == 'quick' else 300)
     wl_run.run_histories(chk, 4 if tier == 'quick' else 60, 20 if tier == 'quick' else 25, {'crashopen', 'conforms'}, 'current-switch-crashes', family=fam)
+    wl_run.run_histories(chk, 2 if tier == 'quick' else 16, 0, {'conforms', 'layout', 'recover', 'step', 'get'}, 'manifest-growth', family='manifest-growth', journal=True, oracle_tags=('conforms',))
 
 
 def c04_part(chk, tier, rng):
